@@ -39,7 +39,8 @@ class ValidationError(StathamError):
     @classmethod
     def from_validator(cls, property_, value, message) -> "ValidationError":
         value_string = (
-            f"{repr(property_.parent)}.{property_.name} = {_safe_repr(value)}`"
+            f"{_safe_repr(property_.parent)}.{property_.name} = "
+            f"{_safe_repr(value)}`"
             if property_.name != "<unbound>"
             else _safe_repr(value)
         )
@@ -61,7 +62,7 @@ class ValidationError(StathamError):
         return cls(
             "Matches multiple possible models. Must only match one.\n"
             f"Data: {_safe_repr(data, str)}\n"
-            f"Models: {matching_models}"
+            f"Models: {_safe_repr(matching_models)}"
         )
 
 
@@ -75,7 +76,7 @@ class SchemaParseError(StathamError):
         return cls(
             "No title defined in schema. Use "
             "`statham.titles.title_labeller` to pre-process the "
-            f"schema: {schema}"
+            f"schema: {_safe_repr(schema, str)}"
         )
 
     @classmethod
